@@ -179,6 +179,11 @@ func (dr *DatabaseRecovery) calculateDelay(attempt int) time.Duration {
 	if delay > float64(dr.retryConfig.MaxDelay) {
 		delay = float64(dr.retryConfig.MaxDelay)
 	}
+	// 0 * +Inf (zero base delay with an overflowing factor) is NaN, which no
+	// comparison caps and which converts to a negative duration
+	if math.IsNaN(delay) || delay < 0 {
+		delay = 0
+	}
 
 	return time.Duration(delay)
 }
